@@ -578,6 +578,12 @@ def grammar_pool(rng, n_random, usize=True, names="plain", max_nt=4, max_t=4, ma
             continue
         items = gen.random_grammar(rng, names=names, payload="usize" if usize else "mixed", derive=True, max_nt=max_nt, max_t=max_t, maxlen=maxlen, min_t=min_t)
         out.append((f"random{k}", items, gen.render(items), gen.to_oracle(items)))
+    # every seventh grammar with a terminal (sometimes a nonterminal) called after a sentinel of the generator (Eof …)
+    srng = random.Random(f"sentinel-{n_random}")
+    for j, (label, items, text, G) in enumerate(out):
+        if j % 7 == 3 and not label.startswith("size"):
+            it2 = gen.sentinelize(items, srng)
+            out[j] = (label + "-sentinel", it2, gen.render(it2), gen.to_oracle(it2))
     # every third grammar of the structured generators also through the named-fieldset code paths
     nrng = random.Random(f"namedify-{n_random}")
     for j, (label, items, text, G) in enumerate(out):
@@ -1882,6 +1888,10 @@ def run_C10(rep, tier, rng):
             r = gen.multi_violation(base, rng)
             if r:
                 items, labels = r[0], [r[1]]
+        if len(cases) % 12 == 7:
+            # one duplicate among twenty to a hundred and thirty variants (where sorting routines change algorithm)
+            items, lab = gen.big_enum_violation(rng)
+            labels = [lab]
         if len(cases) % 6 == 2:
             # well-formed, but nearly in violation of a uniqueness rule (keys that coincide under a too coarse key)
             r = gen.near_miss(base, rng)
